@@ -109,6 +109,13 @@ func (g *GRU) Apply(inputs []tensor.Tensor) ([]tensor.Tensor, error) {
 	// we do not support bidirectional GRU yet.
 	shapeWithoutBidir := prevH.Shape().Clone()[1:]
 
+	// The initial state can be a weight of the model or a tensor owned by the
+	// caller, so reshape a copy instead of the tensor itself.
+	prevH, ok := prevH.Clone().(tensor.Tensor)
+	if !ok {
+		return nil, ops.ErrTypeAssert("tensor.Tensor", prevH)
+	}
+
 	err = prevH.Reshape(shapeWithoutBidir...)
 	if err != nil {
 		return nil, err
